@@ -87,6 +87,7 @@ func ascendingFromZero(r *Resolver, idx ssa.Value, slice *Org) (bool, string) {
 
 func checkC02(c *Check) {
 	c.Explanation = "Path-count and ordering rules on the functions that hold, flush or emit audit events (facts collected on the inlined tracker cones): (1) in the callback run for an event of a known session every nil-returning path performs exactly one of {append the event to the hold queue, emit it}; (2) the append happens only while unbound, the emit only while bound; (3) the flush of the queue dominates the emit of the delivered event; (4) the flush visits the whole queue in ascending index order from 0, emits once per element, leaves the loop on the first write error with that error, and empties the queue on the nil path; (5) every bind made while scanning sessions is followed in the same callback by a flush of the same object, the scan stops only after a bind (a full sweep otherwise), and the login is parked only when no bind happened; (6) opening a session either takes the parked login of that very PID (delete + bind + emit) or holds the LOGIN event. Each rule is a necessary condition of 'exactly once, in order'."
+	c.Rule("event-reaches-correlation: the delivery entry point returns without handing the event to a handler only on tests of the event's Session (imported by C04, C09)")
 	c.Rule("release-only-on-end: a session is removed during a delivery only on evidence of its credential-disposal record")
 	c.Rule("exactly-one-of / hold-iff-unbound / flush-before-emit / flush-shape / bind-implies-flush / scan-stops-only-after-bind / park-only-if-unbound / open-session-path")
 	c.Trust("GenericSyncMap.Iterate stops when the callback returns false (checked structurally in C16/C18)", "order of deliveries themselves is the reassembler's; atomicity of a delivery is C03")
@@ -97,9 +98,11 @@ func checkC02(c *Check) {
 	p := c.P
 	mapContract(c)
 	queuePrivate(c, t)
+	sessionEventReachesCorrelation(c, t)
 	// a failed release ends the processor: a flush that stopped half-way is
 	// never run again on the same queue (rules of C15)
 	nf := importRules(c, "C15", checkC15, "failed-release-stops: ", "no-error-dropped", "error-handoff-keeps-first-error", "processor-returns-received-error")
+	nf += importRules(c, "C15", checkC15, "", "event-reaches-correlator")
 	c.Floor("imported failed-release-stops obligations", 20, nf)
 	// a login and the LOGIN record it matches meet: each delivery is one
 	// critical section (C03), and a session's age is its arrival time, so
